@@ -1158,21 +1158,24 @@ def i_IMUL(i, fmap):
     if len(i.operands) == 1:
         src = i.operands[0]
         m, d = {8: (al, ah), 16: (ax, dx), 32: (eax, edx)}[src.size]
-        r = fmap(m ** src)
+        a, b = fmap(m), fmap(src)
     elif len(i.operands) == 2:
         dst, src = i.operands
         m = d = dst
-        r = fmap(dst ** src)
+        a, b = fmap(dst), fmap(src)
     else:
         dst, src, imm = i.operands
         m = d = dst
-        r = fmap(src) ** imm.signextend(src.size)
+        a, b = fmap(src), imm
+    # signed multiply: full product of the sign-extended operands
+    r = a.signextend(2 * src.size) * b.signextend(2 * src.size)
     lo = r[0 : src.size]
     hi = r[src.size : r.size]
     fmap[d] = hi
     fmap[m] = lo
-    fmap[cf] = hi != (lo >> 31)
-    fmap[of] = hi != (lo >> 31)
+    # cf=of=1 iff the product is not the sign-extension of its low half
+    fmap[cf] = r != lo.signextend(r.size)
+    fmap[of] = r != lo.signextend(r.size)
 
 
 def i_MUL(i, fmap):
